@@ -957,11 +957,14 @@ class VizierServicer(vizier_service_pb2_grpc.VizierServiceServicer):
       grpc_util.handle_exception(e, context)
 
     try:
-      self.datastore.update_metadata(
-          request.name,
-          [x.metadatum for x in request.delta if not x.HasField('trial_id')],
-          [x for x in request.delta if x.HasField('trial_id')],
-      )
+      # Trial and study protos are read-modified-written by the other RPCs
+      # under this lock; without it their write-back loses this update.
+      with self._study_name_to_lock[request.name]:
+        self.datastore.update_metadata(
+            request.name,
+            [x.metadatum for x in request.delta if not x.HasField('trial_id')],
+            [x for x in request.delta if x.HasField('trial_id')],
+        )
     except KeyError as e:
       return vizier_service_pb2.UpdateMetadataResponse(
           error_details=';'.join(e.args)
